@@ -114,10 +114,18 @@ def run_method(meth_name, y, bs, **kw):
         with warnings.catch_warnings():
             warnings.simplefilter('ignore')
             return utils.whittaker_smooth(np.asarray(y, dtype=float), **kw), {}
+    hist = kw.pop('_history', False)
     f = Baseline(x_data=np.arange(len(y), dtype=float), check_finite=False, assume_sorted=True)
     f.banded_solver = bs
     with warnings.catch_warnings():
         warnings.simplefilter('ignore')
+        if hist:
+            # the same object first serves a valid call with other settings and two REJECTED calls
+            for bad in (dict(lam=3.0, diff_order=1), dict(lam=-1.0), dict(weights=np.ones(len(y) + 1))):
+                try:
+                    getattr(f, method)(np.asarray(y, dtype=float)[::-1].copy(), **{k: v for k, v in bad.items()})
+                except Exception:  # noqa
+                    pass
         return getattr(f, method)(np.asarray(y, dtype=float), **kw)
 
 
@@ -600,7 +608,9 @@ def oracle_runs(ctx, budget, stats=None):
             mode = 'conv0'
         base_case = {'kind': 'oracle', 'method': method, 'N': N, 'd': d, 'lam': lam, 'bs': bs, 'hp': hp,
                      'extra': extra, 'y': [float(v) for v in y], 'w0': None if w0 is None else [float(v) for v in w0],
-                     'a0': None if a0 is None else [float(v) for v in a0], 'mode': mode}
+                     'a0': None if a0 is None else [float(v) for v in a0], 'mode': mode,
+                     'layout': {'y': rng.choice(LAYOUTS_1D), 'w': rng.choice(LAYOUTS_1D), 'a': rng.choice(LAYOUTS_1D)},
+                     'history': rng.random() < 0.2}
         checks = run_oracle_case(base_case, K)
         ctx.case(('oracle', method, N, d, bs, hp, round(math.log10(lam), 3), mode, run_i), nontrivial=len(checks) > 0,
                  kind=f'oracle:{method}:{mode}')
@@ -639,9 +649,12 @@ def run_oracle_case(case, K=2):
     elif method == 'drpls':
         kw['eta'] = extra
     if a0 is not None:
-        kw['alpha'] = a0
+        kw['alpha'] = relayout(a0, lay(case, 'a'))
     if w0 is not None:
-        kw['weights'] = w0
+        kw['weights'] = relayout(w0, lay(case, 'w'))
+    if case.get('history'):
+        kw['_history'] = True
+    y_in = relayout(y, lay(case, 'y'))
     out = []
 
     def call(**more):
@@ -650,7 +663,7 @@ def run_oracle_case(case, K=2):
         bu._HAS_PENTAPY = bool(hp) and old
         try:
             with np.errstate(all='ignore'):
-                return run_method(method, y, bs, **kw, **more)
+                return run_method(method, y_in, bs, **kw, **more)
         except Exception:  # noqa   singular system / non-finite solver output
             return None
         finally:
@@ -719,11 +732,13 @@ def single_case(case):
     m, N, d, lam, bs, hp = case['method'], case['N'], case['d'], case['lam'], case['bs'], case['hp']
     y = np.array(case['y'], dtype=float)
     kw = {k: (np.array(v, dtype=float) if isinstance(v, list) else v) for k, v in case['kw'].items()}
+    if isinstance(kw.get('weights'), np.ndarray):
+        kw['weights'] = relayout(kw['weights'], lay(case, 'w'))
     out = []
     with Capture(hp) as cap:
         try:
             with np.errstate(all='ignore'):
-                base, par = run_method(m, y, bs, **kw)
+                base, par = run_method(m, relayout(y, lay(case, 'y')), bs, **kw)
         except Exception:  # noqa
             return out
     calls = [c for c in cap.calls if 'out' in c]
@@ -846,6 +861,52 @@ def oracle_single(ctx, budget):
     return found
 
 
+# ------------------------------------------------------------------ memory layouts of array arguments
+# The documented system is about the VALUES of the logical (M, N) arrays (vec = row-major flatten of the logical
+# array, independent of strides), so every certificate is also evaluated on inputs with the same values and a
+# different memory layout.
+LAYOUTS_2D = ['C', 'F', 'T', 'neg', 'negF', 'slice', 'sliceF']
+LAYOUTS_1D = ['C', 'neg', 'slice']
+
+
+def relayout(a, kind):
+    """An array equal to `a` (same shape, dtype, values) with the requested memory layout."""
+    a = np.asarray(a)
+    if kind in (None, 'C'):
+        out = np.ascontiguousarray(a)
+    elif a.ndim == 1:
+        if kind == 'neg':
+            out = np.ascontiguousarray(a[::-1])[::-1]
+        else:                                    # non-contiguous slice of a longer buffer
+            buf = np.zeros(3 * a.size + 2, dtype=a.dtype)
+            buf[1::3][:a.size] = a
+            out = buf[1::3][:a.size]
+    elif kind == 'F':
+        out = np.asfortranarray(a)
+    elif kind == 'T':                            # transposed view of a C-ordered array
+        out = np.ascontiguousarray(a.T).T
+    elif kind == 'neg':                          # negative strides on both axes
+        out = np.ascontiguousarray(a[::-1, ::-1])[::-1, ::-1]
+    elif kind == 'negF':                         # column-major with a negative stride on axis 0
+        out = np.asfortranarray(a[::-1])[::-1]
+    elif kind == 'slice':                        # non-contiguous window of a larger C-ordered array
+        buf = np.zeros((2 * a.shape[0] + 1, 2 * a.shape[1] + 3), dtype=a.dtype)
+        buf[1::2, 2::2][:a.shape[0], :a.shape[1]] = a
+        out = buf[1::2, 2::2][:a.shape[0], :a.shape[1]]
+    elif kind == 'sliceF':                       # non-contiguous window of a larger column-major array
+        buf = np.zeros((2 * a.shape[0] + 1, 2 * a.shape[1] + 3), dtype=a.dtype, order='F')
+        buf[1::2, 2::2][:a.shape[0], :a.shape[1]] = a
+        out = buf[1::2, 2::2][:a.shape[0], :a.shape[1]]
+    else:
+        raise ValueError(kind)
+    assert out.shape == a.shape and np.array_equal(out, a)
+    return out
+
+
+def lay(case, key):
+    return (case.get('layout') or {}).get(key, 'C')
+
+
 # ------------------------------------------------------------------ 2-D (num_eigens=None): capture, tie, oracle
 ALL_2D = ['asls', 'airpls', 'arpls', 'iarpls', 'psalsa', 'brpls', 'lsrpls', 'iasls', 'drpls', 'aspls']
 NO_EIGENS_ARG = ('iasls', 'drpls', 'aspls')
@@ -895,11 +956,19 @@ class Capture2D:
 def run_method2d(meth_name, y2, **kw):
     from pybaselines import Baseline2D
     M, N = y2.shape
+    hist = kw.pop('_history', False)
     f = Baseline2D(np.arange(M, dtype=float), np.arange(N, dtype=float), check_finite=False, assume_sorted=True)
     if meth_name not in NO_EIGENS_ARG:
         kw['num_eigens'] = None
     with warnings.catch_warnings():
         warnings.simplefilter('ignore')
+        if hist:
+            extra = {} if meth_name in NO_EIGENS_ARG else {'num_eigens': None}
+            for bad in (dict(lam=(3.0, 2.0), diff_order=(2, 2)), dict(lam=-1.0), dict(weights=np.ones((M + 1, N)))):
+                try:
+                    getattr(f, meth_name)(np.ascontiguousarray(np.asarray(y2, dtype=float)[::-1]), **bad, **extra)
+                except Exception:  # noqa
+                    pass
         return getattr(f, meth_name)(np.asarray(y2, dtype=float), **kw)
 
 
@@ -991,10 +1060,17 @@ def correspondence2d(ctx):
         key = {'kind': 'capture2d', 'method': method, 'M': M, 'N': N, 'd': [dr, dc], 'lam': list(lam), 'extra': extra,
                'y': y, 'w': w, 'alpha': alpha,
                'kw': {k: (v.tolist() if isinstance(v, np.ndarray) else v) for k, v in kw.items()}}
+        # memory layouts of the array arguments: enumerated by position in the plan (values unchanged)
+        pi = len(lits) + nbad
+        ly, lw = LAYOUT_PAIRS_2D[pi % len(LAYOUT_PAIRS_2D)] if pi % 2 else ('C', 'C')
+        key['layout'] = {'y': ly, 'w': lw, 'a': ly}
+        kw['weights'] = relayout(kw['weights'], lw)
+        if 'alpha' in kw:
+            kw['alpha'] = relayout(kw['alpha'], ly)
         with Capture2D() as cap:
             exc = None
             try:
-                run_method2d(method, np.array(y, dtype=float).reshape(M, N), **kw)
+                run_method2d(method, relayout(np.array(y, dtype=float).reshape(M, N), ly), **kw)
             except Exception as e:  # noqa
                 exc = e
         ctx.case(('cap2d', method, M, N, dr, dc, lam, tuple(y), tuple(w)), nontrivial=True, kind=f'capture2d:{method}:d=({dr},{dc})')
@@ -1035,7 +1111,7 @@ def correspondence2d(ctx):
             plist.append({'w': [int(Fraction(float(v)) * S) for v in wk], 'A': Ai, 'b': bi[0]})
         if bad:
             nbad += 1
-            ctx.fail(f'assembly2d:{method}', f'2-D {method} ({M}x{N}, diff_order=({dr},{dc}), lam={lam}, extra={extra}): {bad}', key)
+            ctx.fail(f'assembly2d:{method}', f'2-D {method} ({M}x{N}, diff_order=({dr},{dc}), lam={lam}, extra={extra}, data layout {ly}, weights layout {lw}): {bad}', key)
             continue
         code = METH2_CODE.get(method, 0)
         lr, lc = lam
@@ -1114,15 +1190,18 @@ def oracle2d_case(case, K=2):
     elif method == 'drpls':
         kw['eta'] = extra
     if a0 is not None:
-        kw['alpha'] = a0.reshape(M, N)
+        kw['alpha'] = relayout(a0.reshape(M, N), lay(case, 'a'))
     if w0 is not None:
-        kw['weights'] = w0.reshape(M, N)
+        kw['weights'] = relayout(w0.reshape(M, N), lay(case, 'w'))
+    y_in = relayout(y.reshape(M, N), lay(case, 'y'))
+    if case.get('history'):
+        kw['_history'] = True
     out = []
 
     def call(**more):
         try:
             with np.errstate(all='ignore'):
-                return run_method2d(method, y.reshape(M, N), **kw, **more)
+                return run_method2d(method, y_in, **kw, **more)
         except Exception:  # noqa
             return None
 
@@ -1204,7 +1283,9 @@ def oracle2d(ctx, budget, stats=None):
             mode = 'conv0'
         case = {'kind': 'oracle2d', 'method': method, 'M': M, 'N': N, 'd': [dr, dc], 'lam': list(lam), 'extra': extra,
                 'y': [float(v) for v in y], 'w0': None if w0 is None else [float(v) for v in w0],
-                'a0': None if a0 is None else [float(v) for v in a0], 'mode': mode}
+                'a0': None if a0 is None else [float(v) for v in a0], 'mode': mode,
+                'layout': {'y': rng.choice(LAYOUTS_2D), 'w': rng.choice(LAYOUTS_2D), 'a': rng.choice(LAYOUTS_2D)},
+                'history': rng.random() < 0.2}
         checks = oracle2d_case(case)
         ctx.case(('oracle2d', method, M, N, dr, dc, mode, run_i), nontrivial=len(checks) > 0, kind=f'oracle2d:{method}:{mode}')
         for (what, eta, nn, info) in checks:
@@ -1262,7 +1343,8 @@ def eigen_case(case):
     w = np.array(case['w0'], dtype=float).reshape(M, N)
     from pybaselines import Baseline2D
     f = Baseline2D(np.arange(M, dtype=float), np.arange(N, dtype=float), check_finite=False, assume_sorted=True)
-    kw = dict(lam=lam, diff_order=d, weights=w, max_iter=0, tol=np.inf)
+    kw = dict(lam=lam, diff_order=d, weights=relayout(w, lay(case, 'w')), max_iter=0, tol=np.inf)
+    y_in = relayout(y, lay(case, 'y'))
     if not case.get('default_eigens'):
         kw['num_eigens'] = g
     import pybaselines.two_d._whittaker_utils as wu
@@ -1278,7 +1360,7 @@ def eigen_case(case):
     try:
         with warnings.catch_warnings(), np.errstate(all='ignore'):
             warnings.simplefilter('ignore')
-            base, par = getattr(f, method)(y, **kw)
+            base, par = getattr(f, method)(y_in, **kw)
     except Exception:  # noqa
         return None
     finally:
@@ -1356,7 +1438,8 @@ def oracle2d_eigen(ctx, budget, stats=None):
              + nrng.normal(0, 0.2, (M, N)))
         w = nrng.uniform(0.1, 1.0, (M, N))
         case = {'kind': 'eigen2d', 'method': method, 'M': M, 'N': N, 'd': [dr, dc], 'lam': lam, 'num_eigens': list(g),
-                'default_eigens': default, 'y': [float(v) for v in y.ravel()], 'w0': [float(v) for v in w.ravel()]}
+                'default_eigens': default, 'y': [float(v) for v in y.ravel()], 'w0': [float(v) for v in w.ravel()],
+                'layout': {'y': rng.choice(LAYOUTS_2D), 'w': rng.choice(LAYOUTS_2D)}}
         res = eigen_case(case)
         ctx.case(('eigen2d', method, M, N, dr, dc, tuple(g), run_i), nontrivial=res is not None,
                  kind=f'oracle2d-eigen:{kind}:{"checked" if res is not None else "skipped"}')
@@ -1373,6 +1456,104 @@ def oracle2d_eigen(ctx, budget, stats=None):
                      f'2-D {method} ({M}x{N}, diff_order=({dr},{dc}), lam=({lam[0]:.3g},{lam[1]:.3g}), {info}, max_iter=0): the returned '
                      f'baseline does not solve the documented reduced (eigen-basis) system (worst ratio to its limit {rel:.3g})', small)
     return found
+
+
+# ------------------------------------------------------------------ fixed, enumerated grid (before any random draw)
+LAYOUT_PAIRS_2D = [('F', 'C'), ('T', 'F'), ('C', 'F'), ('neg', 'negF'), ('negF', 'T'), ('slice', 'sliceF'), ('sliceF', 'neg')]
+LAYOUT_PAIRS_1D = [('neg', 'slice'), ('slice', 'neg'), ('neg', 'C')]
+
+
+def fixed_data2d(M, N, k):
+    nrng = np.random.default_rng(1000 + 31 * M + 7 * N + k)
+    t1, t2 = np.meshgrid(np.linspace(0, 1, M), np.linspace(0, 1, N), indexing='ij')
+    y = (2 + 3 * t1 - 2 * t2 + 4 * t1 * t2 ** 2 + 15 * np.exp(-0.5 * (((t1 - 0.3) / 0.15) ** 2 + ((t2 - 0.6) / 0.2) ** 2))
+         + nrng.normal(0, 0.2, (M, N)))
+    return y, nrng.uniform(0.1, 1.0, (M, N)), nrng.uniform(0.2, 1.0, (M, N))
+
+
+def report_checks(ctx, prefix, label, checks, case, n_name='N'):
+    bad = 0
+    for (what, eta, nn, info) in checks:
+        bound = BOUND_C * nn * EPS
+        if not (eta <= bound):
+            bad += 1
+            c = dict(case)
+            c['what'] = what
+            ctx.fail(f'{prefix}:{what if what.startswith("returned-pair") else "pass"}',
+                     f'{label} ({info}): {what}: normwise backward error {eta:.3e} > {BOUND_C}*{n_name}*eps = {bound:.3e}', c)
+    return bad
+
+
+def enumerated_grid(ctx):
+    """Memory layouts of data / weights / alpha, objects with a history of rejected calls, extreme magnitudes:
+    a fixed grid, the same for every seed."""
+    found = 0
+    # 2-D full-system path: every method x every layout pair
+    for mi, method in enumerate(ALL_2D):
+        for li, (ly, lw) in enumerate(LAYOUT_PAIRS_2D):
+            M, N = [(5, 7), (7, 4), (6, 9)][(mi + li) % 3]
+            d = [2, 2] if method in ('iasls', 'drpls') else [[1, 2], [2, 1], [2, 3]][(mi + li) % 3]
+            y, w, al = fixed_data2d(M, N, li)
+            extra = {'iasls': 0.01, 'drpls': 0.5}.get(method, 0)
+            case = {'kind': 'oracle2d', 'method': method, 'M': M, 'N': N, 'd': d, 'lam': [10.0, 1000.0], 'extra': extra,
+                    'y': [float(v) for v in y.ravel()], 'w0': [float(v) for v in w.ravel()],
+                    'a0': [float(v) for v in al.ravel()] if method == 'aspls' else None,
+                    'mode': 'conv0' if method == 'brpls' else 'traj', 'layout': {'y': ly, 'w': lw, 'a': ly},
+                    'history': li % 3 == 0}
+            checks = oracle2d_case(case)
+            ctx.case(('grid2d', method, ly, lw), nontrivial=len(checks) > 0, kind=f'grid2d:layout:{ly}/{lw}')
+            found += report_checks(ctx, f'residual2d:{method}', f'2-D {method} ({M}x{N}, diff_order={tuple(d)}, num_eigens=None, '
+                                   f'data layout {ly}, weights layout {lw}, history={case["history"]})', checks, case, 'MN')
+    # 2-D eigendecomposition path
+    for mi, method in enumerate(EIGEN_2D):
+        for li, (ly, lw) in enumerate(LAYOUT_PAIRS_2D):
+            M, N = [(14, 17), (16, 12)][(mi + li) % 2]
+            y, w, _ = fixed_data2d(M, N, li)
+            case = {'kind': 'eigen2d', 'method': method, 'M': M, 'N': N, 'd': [2, 1], 'lam': [100.0, 1.0e4],
+                    'num_eigens': [10, 10] if li == 0 else [5, 4], 'default_eigens': li == 0,
+                    'y': [float(v) for v in y.ravel()], 'w0': [float(v) for v in w.ravel()], 'layout': {'y': ly, 'w': lw}}
+            res = eigen_case(case)
+            ctx.case(('grid-eigen2d', method, ly, lw), nontrivial=res is not None, kind=f'grid2d-eigen:layout:{ly}/{lw}')
+            if res is not None and not (res[0] <= 1.0):
+                found += 1
+                ctx.fail(f'eigen2d:{method}:grid', f'2-D {method} ({M}x{N}, data layout {ly}, weights layout {lw}, {res[1]}): the returned '
+                         f'baseline does not solve the documented reduced (eigen-basis) system (worst ratio to its limit {res[0]:.3g})', case)
+    # 1-D: layouts, history, magnitudes
+    for mi, method in enumerate(ALL_1D):
+        for li, (ly, lw) in enumerate(LAYOUT_PAIRS_1D):
+            N, d = [(9, 2), (14, 3), (23, 2)][(mi + li) % 3]
+            nrng = np.random.default_rng(500 + 13 * mi + li)
+            t = np.linspace(0, 1, N)
+            y = (5 + 10 * t + 3 * np.sin(3 * t) + 30 * np.exp(-0.5 * ((t - 0.4) / 0.08) ** 2) + nrng.normal(0, 0.5, N))
+            y = y * [1.0, 1e-100, 1e100][li]
+            case = {'kind': 'oracle', 'method': method, 'N': N, 'd': d, 'lam': 100.0, 'bs': 1 + (mi + li) % 4, 'hp': li == 0,
+                    'extra': {'iasls': 0.01, 'drpls': 0.5}.get(method, 0), 'y': [float(v) for v in y],
+                    'w0': [float(v) for v in nrng.uniform(0.1, 1.0, N)],
+                    'a0': [float(v) for v in nrng.uniform(0.2, 1.0, N)] if method == 'aspls' else None,
+                    'mode': 'conv0' if method == 'brpls' else 'traj', 'layout': {'y': ly, 'w': lw, 'a': ly}, 'history': li == 1}
+            checks = run_oracle_case(case)
+            ctx.case(('grid1d', method, ly, lw), nontrivial=len(checks) > 0, kind=f'grid1d:layout:{ly}/{lw}')
+            found += report_checks(ctx, f'residual:{method}', f'{method} (N={N}, diff_order={d}, data layout {ly}, weights layout {lw}, '
+                                   f'scale {[1.0, 1e-100, 1e100][li]:g}, history={case["history"]})', checks, case)
+    for li, (ly, lw) in enumerate(LAYOUT_PAIRS_1D):
+        nrng = np.random.default_rng(77 + li)
+        N, d = 12 + li, 1 + li
+        y = make_y1(nrng, N)
+        case = {'kind': 'single', 'method': 'whittaker_smooth', 'N': N, 'd': d, 'lam': 50.0, 'bs': 1, 'hp': li == 0,
+                'y': [float(v) for v in y], 'layout': {'y': ly, 'w': lw},
+                'kw': {'lam': 50.0, 'diff_order': d, 'weights': [float(v) for v in nrng.uniform(0.0, 3.0, N)]}}
+        res = single_case(case)
+        ctx.case(('grid-ws', ly, lw), nontrivial=len(res) > 0, kind=f'grid1d:whittaker_smooth:{ly}/{lw}')
+        for what, msg in res:
+            if msg is not None:
+                found += 1
+                ctx.fail(f'single:whittaker_smooth:{what}', f'whittaker_smooth (N={N}, data layout {ly}, weights layout {lw}): {msg}', case)
+    return found
+
+
+def make_y1(nrng, N):
+    t = np.linspace(0, 1, N)
+    return 5 + 10 * t + 30 * np.exp(-0.5 * ((t - 0.4) / 0.08) ** 2) + nrng.normal(0, 0.5, N)
 
 
 BRPLS_KEY = 'returned-pair:brpls:first-pass-early-exit-returns-data'
@@ -1416,7 +1597,7 @@ def run(ctx):
         'reweighting rules and the loop skeleton are C09/C01; here the loop is lib/Loop.v with abstract reweight/diff/below',
     ]
     ctx.gate()
-    ctx.translate(['GenBands'])
+    ctx.translate(['GenBands', 'GenC06Vec'])
     ok = ctx.build_props()
     ncap = correspondence(ctx)
     ncap2 = correspondence2d(ctx)
@@ -1431,7 +1612,8 @@ def run(ctx):
         if not (eta <= BOUND_C * Nn * EPS):
             ctx.fail(BRPLS_KEY, f'brpls regression witness (N=3, diff_order=1, {info}): {what}: normwise backward error '
                      f'{eta:.3e}', BRPLS_WITNESS)
-    found = oracle_runs(ctx, budget)
+    found = enumerated_grid(ctx)
+    found += oracle_runs(ctx, budget)
     found += oracle_single(ctx, budget)
     found += oracle2d(ctx, budget)
     found += oracle2d_eigen(ctx, budget)
@@ -1441,6 +1623,7 @@ def run(ctx):
              'solver residual, returned array = solver output; their right-hand sides are not re-derived); '
              '2-D: num_eigens=None path of all ten methods (theorems, exact spsolve-input tie on small grids, residual oracle); '
              '2-D eigendecomposition path (num_eigens set): oracle only (reduced-system backward error, span, lam*Sigma term vs an independent SVD-based eigensolver, long axes); '
+             'fixed enumerated grid first (every method x memory layouts F/T/neg/negF/slice/sliceF of data, weights, alpha on both 2-D paths and 1-D; fitter objects with a history of rejected calls; data scaled by 1e-100 / 1e100), random layouts on top; '
              'NOT covered: non-integer eta in the Coq tie (eta=1/4,1/2 only through the oracle), '
              'passes >= 2 of methods other than asls/iasls in the Coq tie (non-dyadic weights; covered by the oracle)')
 
@@ -1455,6 +1638,32 @@ def replay(rep):
         bad = [(w, e) for (w, e, n, _) in run_oracle_case(case) if not (e <= BOUND_C * n * EPS)]
         print('replay oracle:', bad or 'property holds on this input')
         return 1 if bad else 0
+    if kind == 'capture2d':
+        M, N, d = case['M'], case['N'], tuple(case['d'])
+        kw = {k: (np.array(v, dtype=float) if isinstance(v, list) and k in ('weights', 'alpha') else
+                  (tuple(v) if isinstance(v, list) else v)) for k, v in case['kw'].items()}
+        kw['max_iter'] = 0
+        lay_ = case.get('layout') or {}
+        kw['weights'] = relayout(kw['weights'], lay_.get('w', 'C'))
+        if 'alpha' in kw:
+            kw['alpha'] = relayout(kw['alpha'], lay_.get('a', 'C'))
+        with Capture2D() as cap:
+            try:
+                run_method2d(case['method'], relayout(np.array(case['y'], dtype=float).reshape(M, N), lay_.get('y', 'C')), **kw)
+            except Exception as e:  # noqa
+                print('replay capture2d: raised', type(e).__name__, e)
+        if not cap.calls:
+            print('replay capture2d: no spsolve call captured')
+            return 1
+        extra = tuple(case['extra']) if isinstance(case['extra'], list) else case['extra']
+        Adoc, bdoc = doc2_system(case['method'], M, N, tuple(case['lam']), d, extra, [Fraction(v) for v in case['w']],
+                                 case['alpha'], case['y'], Fraction)
+        A, b = cap.calls[0]['A'], cap.calls[0]['b']
+        n = M * N
+        bad = [(p_, q_) for p_ in range(n) for q_ in range(n) if Fraction(float(A[p_, q_])) != Adoc[p_, q_]]
+        badb = [p_ for p_ in range(n) if Fraction(float(b[p_])) != bdoc[p_]]
+        print('replay capture2d:', f'matrix entries differ at {bad[:5]}, rhs at {badb[:5]}' if (bad or badb) else 'property holds on this input')
+        return 1 if (bad or badb) else 0
     if kind == 'oracle2d':
         bad = [(w, e) for (w, e, n, _) in oracle2d_case(case) if not (e <= BOUND_C * n * EPS)]
         print('replay oracle2d:', bad or 'property holds on this input')
